@@ -352,7 +352,7 @@ func check(id, tier string) int {
 					}
 					continue
 				}
-				if !isolated && strings.Contains(tail, "from outside bubble") && lastIdx >= 0 {
+				if !isolated && crossBubble(tail) && lastIdx >= 0 {
 					// A channel or timer created in one simulated world was used in a later one: the code
 					// under test keeps such objects in package-level state. Not a verdict and not a harness
 					// fault: go on with one process per run, starting again at the run that died.
@@ -621,6 +621,17 @@ func componentsOf(engine, mode string) map[string]any {
 		"real": real,
 		"stub": []string{"plugins (scripted sim plugins: the environment)", "wall clock (testing/synctest fake clock)", "process death (generation switch: writes of a dead incarnation are dropped)"},
 	}
+}
+
+// crossBubble recognises the runtime's complaints about an object made in one
+// testing/synctest bubble and used in another (or outside any).
+func crossBubble(tail string) bool {
+	for _, m := range []string{"from outside bubble", "outside synctest bubble", "multiple synctest bubbles", "different synctest bubble"} {
+		if strings.Contains(tail, m) {
+			return true
+		}
+	}
+	return false
 }
 
 func firstPanicLine(s string) string {
